@@ -94,9 +94,47 @@ structure StepResult where
   errInExec : Bool := false
   errInHook : Bool := false
 
-def step (hooks : HookTable) (decode : Machine → List Byte → DecodeRes) (s : Machine) : StepResult :=
-  if s.finished then { out := .err, s := s } else
-  if (match s.maxInstr with | some l => decide (l ≤ s.count) | none => false) then { out := .err, s := s } else
+/-- has the instruction limit been reached? -/
+def limitReached (s : Machine) : Bool :=
+  match s.maxInstr with
+  | some l => decide (l ≤ s.count)
+  | none => false
+
+/-- run the before- or after-chain of the (snapshotted) hook entry, if any -/
+def runEntry (entry : Option HookEntry) (before : Bool) (s : Machine) : ChainRes :=
+  match entry with
+  | some e => runFunctions (if before then e.before else e.after) s
+  | none => .ok s
+
+/-- after the instruction: count it, detect the end of the code, run the after-hooks -/
+def stepAfterExec (entry : Option HookEntry) (s3 : Machine) : StepResult :=
+  let s4 := { s3 with count := s3.count + 1 }
+  let s5 := if s4.regs.rip.toNat = s4.codeEnd then { s4 with finished := true } else s4
+  match runEntry entry false s5 with
+  | .panic => { out := .panic, s := s5 }
+  | .err s6 => { out := .err, s := s6, errInHook := true }
+  | .ok s6 => { out := .ok (!s6.finished), s := s6 }
+
+/-- the instruction itself; a top-level RET (`signals_normal_finish`) marks the run finished -/
+def stepExec (hooks : HookTable) (entry : Option HookEntry) (i : Instr) (s2 : Machine) : StepResult :=
+  match exec (fun mn => (hooks.get mn).isSome) i s2 with
+  | .ok s3 => stepAfterExec entry s3
+  | .finish => stepAfterExec entry { s2 with finished := true }
+  | .err => { out := .err, s := s2, errInExec := true }
+  | .panic => { out := .panic, s := s2, errInExec := true }
+
+/-- a decoded instruction: advance RIP, check the mnemonic, run the before-hooks, execute -/
+def stepDecoded (hooks : HookTable) (i : Instr) (s : Machine) : StepResult :=
+  let s1 := setRip s i.nextIp
+  if !supportedMnemonics.contains i.mnem then { out := .err, s := s1 } else
+  let entry := hooks.get i.mnem
+  match runEntry entry true s1 with
+  | .panic => { out := .panic, s := s1 }
+  | .err s2 => { out := .err, s := s2, errInHook := true }
+  | .ok s2 => stepExec hooks entry i s2
+
+/-- everything `step()` does after its two guards -/
+def stepBody (hooks : HookTable) (decode : Machine → List Byte → DecodeRes) (s : Machine) : StepResult :=
   match memReadExec s.mem s.regs.rip.toNat with
   | .err => { out := .err, s := s }
   | .panic => { out := .panic, s := s }
@@ -105,33 +143,12 @@ def step (hooks : HookTable) (decode : Machine → List Byte → DecodeRes) (s :
     if window.isEmpty then { out := .err, s := s } else
     match decode s window with
     | .invalid => { out := .err, s := s }
-    | .instr i =>
-      let s1 := setRip s i.nextIp
-      if !supportedMnemonics.contains i.mnem then { out := .err, s := s1 } else
-      let entry := hooks.get i.mnem
-      let afterBefore : ChainRes := match entry with
-        | some e => runFunctions e.before s1
-        | none => .ok s1
-      match afterBefore with
-      | .panic => { out := .panic, s := s1 }
-      | .err s2 => { out := .err, s := s2, errInHook := true }
-      | .ok s2 =>
-        let hasHooks : HasHooks := fun mn => (hooks.get mn).isSome
-        let cont (s3 : Machine) : StepResult :=
-          let s4 := { s3 with count := s3.count + 1 }
-          let s5 := if s4.regs.rip.toNat = s4.codeEnd then { s4 with finished := true } else s4
-          let afterAfter : ChainRes := match entry with
-            | some e => runFunctions e.after s5
-            | none => .ok s5
-          match afterAfter with
-          | .panic => { out := .panic, s := s5 }
-          | .err s6 => { out := .err, s := s6, errInHook := true }
-          | .ok s6 => { out := .ok (!s6.finished), s := s6 }
-        match exec hasHooks i s2 with
-        | .ok s3 => cont s3
-        | .finish => cont { s2 with finished := true }
-        | .err => { out := .err, s := s2, errInExec := true }
-        | .panic => { out := .panic, s := s2, errInExec := true }
+    | .instr i => stepDecoded hooks i s
+
+def step (hooks : HookTable) (decode : Machine → List Byte → DecodeRes) (s : Machine) : StepResult :=
+  if s.finished then { out := .err, s := s } else
+  if limitReached s then { out := .err, s := s } else
+  stepBody hooks decode s
 
 /-- `execute()`: step while `Ok(true)`; `fuel` only bounds the model's recursion. -/
 def execute (hooks : HookTable) (decode : Machine → List Byte → DecodeRes) : Nat → Machine → StepResult
@@ -153,35 +170,58 @@ def setGpr (s : Machine) (i : Fin 16) (v : BitVec 64) : Machine := { s with regs
 def hookExit : HookFn := fun s =>
   if s.regs.get RAX != 60 then .ok .unhandled s else .ok .handled { s with finished := true }
 
+/-- the heap as the brk handler sees it -/
+structure BrkState where
+  mem : Mem
+  start : Nat
+  len : Nat
+
+inductive BrkOut where
+  | ok (ret : Nat) (st : BrkState)
+  | err (st : BrkState)
+  | panic
+
+/-- first use: make up a 0x1000-byte heap -/
+def brkInit (st : BrkState) : Out BrkState :=
+  if st.start = 0 then
+    match initZeroAnywhere st.mem 0x1000 with
+    | .ok (a, m) => .ok { mem := m, start := a, len := 0x1000 }
+    | .err => .err
+    | .panic => .panic
+  else .ok st
+
+/-- query or move the break of an initialised heap -/
+def brkMove (s1 : BrkState) (arg : Nat) : BrkOut :=
+  if arg < s1.start then
+    -- query (or an address that can never be the break): the current break
+    match u64add s1.start s1.len with
+    | some b => .ok b s1
+    | none => .panic
+  else
+    let newLen := arg - s1.start
+    match resizeSection s1.mem s1.start newLen with
+    | .err => .err s1
+    | .panic => .panic
+    | .ok m =>
+      match u64add s1.start newLen with
+      | some b => .ok b { s1 with mem := m, len := newLen }
+      | none => .panic
+
+/-- one brk(arg) call on (memory, heap start, heap length) -/
+def brkCall (st : BrkState) (arg : Nat) : BrkOut :=
+  match brkInit st with
+  | .err => .err st
+  | .panic => .panic
+  | .ok s1 => brkMove s1 arg
+
 /-- brk (12).  A failure of the resize leaves the lazily created heap in place. -/
 def hookBrk : HookFn := fun s =>
   if s.regs.get RAX != 12 then .ok .unhandled s else
-  let brk := (s.regs.get RDI).toNat
-  -- first use: make up a 0x1000-byte heap
-  let init : Out Machine :=
-    if s.sys.brkStart = 0 then
-      match initZeroAnywhere s.mem 0x1000 with
-      | .ok (a, m) => .ok { s with mem := m, sys := { s.sys with brkStart := a, brkLen := 0x1000 } }
-      | .err => .err
-      | .panic => .panic
-    else .ok s
-  match init with
-  | .err => .err s
+  let put (st : BrkState) : Machine := { s with mem := st.mem, sys := { s.sys with brkStart := st.start, brkLen := st.len } }
+  match brkCall { mem := s.mem, start := s.sys.brkStart, len := s.sys.brkLen } (s.regs.get RDI).toNat with
+  | .ok ret st => .ok .handled (setGpr (put st) RAX (BitVec.ofNat 64 ret))
+  | .err st => .err (put st)
   | .panic => .panic
-  | .ok s1 =>
-    if brk < s1.sys.brkStart then
-      match u64add s1.sys.brkStart s1.sys.brkLen with
-      | some b => .ok .handled (setGpr s1 RAX (BitVec.ofNat 64 b))
-      | none => .panic
-    else
-      let newLen := brk - s1.sys.brkStart
-      match resizeSection s1.mem s1.sys.brkStart newLen with
-      | .err => .err s1
-      | .panic => .panic
-      | .ok m =>
-        match u64add s1.sys.brkStart newLen with
-        | some b => .ok .handled (setGpr { s1 with mem := m, sys := { s1.sys with brkLen := newLen } } RAX (BitVec.ofNat 64 b))
-        | none => .panic
 
 /-- arch_prctl (158) -/
 def hookArchPrctl : HookFn := fun s =>
@@ -198,28 +238,53 @@ def hookArchPrctl : HookFn := fun s =>
     else if code = 0x1004 then .ok .handled (setGpr s RAX s.gs)
     else .ok .handled (setGpr s RAX 22)
 
+/-! pipes: the bookkeeping as pure functions on the pipe table -/
+
+abbrev Pipes := List (Nat × Nat × List Byte)
+
+def Pipes.isEnd (ps : Pipes) (x : Nat) : Bool := ps.any fun p => p.1 == x || p.2.1 == x
+
+/-- `pipe()`: refuse descriptor numbers already in use, else add an empty pipe -/
+def pipeCreate (ps : Pipes) (r w : Nat) : Option Pipes :=
+  if ps.isEnd r || ps.isEnd w then none else some (ps ++ [(r, w, [])])
+
+/-- `write(fd, ..)`: `none` when `fd` is not the write end of a pipe; else append to that pipe -/
+def pipeWrite (ps : Pipes) (fd : Nat) (bytes : List Byte) : Option Pipes :=
+  match ps.find? (fun p => p.2.1 == fd) with
+  | none => none
+  | some q => some (ps.map fun p => if p.1 == q.1 then (p.1, p.2.1, p.2.2 ++ bytes) else p)
+
+/-- `read(fd, .., count)`: `none` when `fd` is not the read end of a pipe; else the first
+    `min count available` bytes, which are removed -/
+def pipeRead (ps : Pipes) (fd count : Nat) : Option (List Byte × Pipes) :=
+  match ps.find? (fun p => p.1 == fd) with
+  | none => none
+  | some q =>
+    let n := min count q.2.2.length
+    some (q.2.2.take n, ps.map fun p => if p.1 == fd then (p.1, p.2.1, p.2.2.drop n) else p)
+
 /-- pipe (22): the two descriptor numbers come from the host's RNG: a parameter.
     The pipe is entered into the tables before the descriptors are stored to guest memory. -/
 def hookPipe (fds : Nat × Nat) : HookFn := fun s =>
   if s.regs.get RAX != 22 then .ok .unhandled s else
   let (r, w) := fds
-  let isEnd (x : Nat) : Bool := s.sys.pipes.any fun (pr, pw, _) => pr == x || pw == x
-  if isEnd r || isEnd w then .err s else
-  let sys' := { s.sys with pipes := s.sys.pipes ++ [(r, w, [])] }
-  let ptr := (s.regs.get RDI)
-  let s1 := { s with sys := sys' }
-  match memWriteN s1.mem 8 ptr.toNat r with
-  | .err => .err s1
-  | .panic => .panic
-  | .ok m1 =>
-    -- `fd_ptr + 8` is a checked addition
-    match u64add ptr.toNat 8 with
-    | none => .panic
-    | some p8 =>
-      match memWriteN m1 8 p8 w with
-      | .err => .err { s1 with mem := m1 }
-      | .panic => .panic
-      | .ok m2 => .ok .handled (setGpr { s1 with mem := m2 } RAX 0)
+  match pipeCreate s.sys.pipes r w with
+  | none => .err s
+  | some ps =>
+    let ptr := (s.regs.get RDI)
+    let s1 := { s with sys := { s.sys with pipes := ps } }
+    match memWriteN s1.mem 8 ptr.toNat r with
+    | .err => .err s1
+    | .panic => .panic
+    | .ok m1 =>
+      -- `fd_ptr + 8` is a checked addition
+      match u64add ptr.toNat 8 with
+      | none => .panic
+      | some p8 =>
+        match memWriteN m1 8 p8 w with
+        | .err => .err { s1 with mem := m1 }
+        | .panic => .panic
+        | .ok m2 => .ok .handled (setGpr { s1 with mem := m2 } RAX 0)
 
 /-- read (0) on the read end of a pipe -/
 def hookPipeRead : HookFn := fun s =>
@@ -227,16 +292,14 @@ def hookPipeRead : HookFn := fun s =>
   let fd := (s.regs.get RDI).toNat
   let buf := (s.regs.get RSI).toNat
   let count := (s.regs.get RDX).toNat
-  match s.sys.pipes.find? (fun (pr, _, _) => pr == fd) with
+  match pipeRead s.sys.pipes fd count with
   | none => .ok .unhandled s
-  | some (_, _, content) =>
-    let n := min count content.length
-    match memWriteBytes s.mem buf (content.take n) with
+  | some (bytes, ps) =>
+    match memWriteBytes s.mem buf bytes with
     | .err => .err s
     | .panic => .panic
     | .ok m =>
-      let pipes' := s.sys.pipes.map fun (pr, pw, c) => if pr == fd then (pr, pw, c.drop n) else (pr, pw, c)
-      .ok .handled (setGpr { s with mem := m, sys := { s.sys with pipes := pipes' } } RAX (BitVec.ofNat 64 n))
+      .ok .handled (setGpr { s with mem := m, sys := { s.sys with pipes := ps } } RAX (BitVec.ofNat 64 bytes.length))
 
 /-- write (1) on the write end of a pipe -/
 def hookPipeWrite : HookFn := fun s =>
@@ -244,15 +307,17 @@ def hookPipeWrite : HookFn := fun s =>
   let fd := (s.regs.get RDI).toNat
   let buf := (s.regs.get RSI).toNat
   let count := (s.regs.get RDX).toNat
-  match s.sys.pipes.find? (fun (_, pw, _) => pw == fd) with
+  -- the descriptor is looked up first: a non-pipe descriptor is left to other hooks without touching memory
+  match pipeWrite s.sys.pipes fd [] with
   | none => .ok .unhandled s
-  | some (rEnd, _, _) =>
+  | some _ =>
     match memReadBytes s.mem buf count with
     | .err => .err s
     | .panic => .panic
     | .ok bytes =>
-      let pipes' := s.sys.pipes.map fun (pr, pw, c) => if pr == rEnd then (pr, pw, c ++ bytes) else (pr, pw, c)
-      .ok .handled (setGpr { s with sys := { s.sys with pipes := pipes' } } RAX (BitVec.ofNat 64 count))
+      match pipeWrite s.sys.pipes fd bytes with
+      | none => .ok .unhandled s
+      | some ps => .ok .handled (setGpr { s with sys := { s.sys with pipes := ps } } RAX (BitVec.ofNat 64 count))
 
 /-! ### stack initialisation -/
 
